@@ -590,6 +590,22 @@ def _advances(st, advancing, cursors=()) -> bool:
     return False
 
 
+def _advance_counts(stmts, cursors, acc=0):
+    """number of cursor advances along every path through stmts (paths that leave the loop are dropped)"""
+    if not stmts:
+        return [acc]
+    st, rest = stmts[0], stmts[1:]
+    if isinstance(st, (ast.Return, ast.Raise, ast.Break, ast.Continue)):
+        return [acc] if isinstance(st, ast.Continue) else []
+    if isinstance(st, ast.If):
+        return _advance_counts(list(st.body) + rest, cursors, acc) + _advance_counts(list(st.orelse) + rest, cursors, acc)
+    if isinstance(st, (ast.For, ast.While, ast.Try, ast.With)):
+        return _advance_counts(rest, cursors, acc)
+    k = sum(1 for n in ast.walk(st) if isinstance(n, ast.AugAssign) and isinstance(n.op, ast.Add) and
+            norm_stmt(n.target) in cursors)
+    return _advance_counts(rest, cursors, acc + k)
+
+
 def loop_progress(ctx, rep, clause):
     program = ctx.program
     cls = program.cls(PARSER)
@@ -618,6 +634,21 @@ def loop_progress(ctx, rep, clause):
                 n += 1
                 cursors = {x.id for x in ast.walk(node.test) if isinstance(x, ast.Name)} - {p_.name for p_ in f.params}
                 stuck = _progress_paths(list(node.body), set(), cursors)
+                # the position cursor is the name the loop test compares with the length of the input
+                cz = Canon(f.node)
+                pos_cursors = set()
+                for cmp_ in [y for y in ast.walk(node.test) if isinstance(y, ast.Compare) and len(y.ops) == 1]:
+                    sides = [cmp_.left, cmp_.comparators[0]]
+                    for a_, b_ in (sides, sides[::-1]):
+                        if isinstance(a_, ast.Name) and 'len(' in norm_stmt(cz.resolve(b_)):
+                            pos_cursors.add(a_.id)
+                counts = _advance_counts(list(node.body), pos_cursors or cursors)
+                ob(rep, 'EXC-progress', fq, f'loop `while {Canon(f.node).text(node.test)[:50]}` moves its cursor once per '
+                   f'iteration', bool(counts) and max(counts) <= 1, f'advances per path: {sorted(set(counts))}',
+                   f'a path through the loop body advances the cursor {max(counts) if counts else 0} times: after a '
+                   f'bracket group has been consumed the next character is skipped as well, so every second of two '
+                   f'adjacent groups (`[A][B]`) is silently dropped instead of parsed (and validated)', f.loc(node),
+                   clause)
                 ob(rep, 'EXC-progress', fq, f'loop `while {Canon(f.node).text(node.test)[:50]}` makes progress on every path',
                    not stuck, 'every path advances or leaves', 'a path through the loop body does not advance',
                    f.loc(node), clause)
